@@ -219,10 +219,10 @@ Proof.
     now rewrite <- app_assoc.
 Qed.
 
-Lemma open_tag_run : forall tag opts attrs txt kids stack,
+Lemma open_tag_run_gen : forall tag opts attrs txt kids stack,
   name_okb tag = true -> forallb name_okb opts = true -> forallb (fun a => name_okb (fst a)) attrs = true ->
   run_parser (open_tag tag opts attrs) (PS (MText (TS txt None)) kids stack)
-  = PS (MText (TS [] None)) [] (((tag, opts, attrs), flush_text txt kids) :: stack).
+  = push_open (tag, opts, attrs) (flush_text txt kids) stack.
 Proof.
   intros tag opts attrs txt kids stack Ht Ho Ha.
   destruct (name_ok_split tag Ht) as (c & r & -> & Hc & Hr).
@@ -231,6 +231,52 @@ Proof.
   rewrite S1. cbn [app]. rewrite run_cons. cbn [step]. rewrite (alpha_not_slash c Hc), Hc.
   rewrite run_app, open_name_run by assumption. cbn [app].
   rewrite (opts_run opts attrs (c :: r) [] _ _ stack (ready_open (c :: r)) Ho Ha). reflexivity.
+Qed.
+Lemma open_tag_run : forall tag opts attrs txt kids stack,
+  name_okb tag = true -> is_raw_tag tag = false ->
+  forallb name_okb opts = true -> forallb (fun a => name_okb (fst a)) attrs = true ->
+  run_parser (open_tag tag opts attrs) (PS (MText (TS txt None)) kids stack)
+  = PS (MText (TS [] None)) [] (((tag, opts, attrs), flush_text txt kids) :: stack).
+Proof.
+  intros tag opts attrs txt kids stack Ht Hraw Ho Ha.
+  rewrite open_tag_run_gen by assumption. unfold push_open. now rewrite Hraw.
+Qed.
+Lemma raw_open_tag_run : forall tag txt kids stack,
+  name_okb tag = true -> is_raw_tag tag = true ->
+  run_parser (open_tag tag [] []) (PS (MText (TS txt None)) kids stack)
+  = PS (MRawText []) [] (((tag, [], []), flush_text txt kids) :: stack).
+Proof.
+  intros tag txt kids stack Ht Hraw.
+  rewrite open_tag_run_gen by (assumption || reflexivity). unfold push_open. now rewrite Hraw.
+Qed.
+Lemma raw_body_run : forall body acc kids stack, no_lt body = true ->
+  run_parser body (PS (MRawText acc) kids stack) = PS (MRawText (acc ++ body)) kids stack.
+Proof.
+  induction body as [|c r IH]; intros acc kids stack H; [now rewrite app_nil_r|].
+  unfold no_lt in H. simpl in H. apply andb_prop in H. destruct H as [Hc Hr].
+  rewrite run_cons. cbn [step]. apply negb_true_iff in Hc. rewrite Hc.
+  rewrite IH by exact Hr. now rewrite <- app_assoc.
+Qed.
+Lemma rawclose_name_run : forall s b acc kids stack, forallb is_name_char s = true ->
+  run_parser s (PS (MRawCloseName b acc) kids stack) = PS (MRawCloseName b (acc ++ s)) kids stack.
+Proof.
+  induction s as [|c s IH]; intros b acc kids stack H; [now rewrite app_nil_r|].
+  simpl in H; apply andb_prop in H; destruct H as [Hc Hs].
+  rewrite run_cons. cbn [step]. rewrite Hc, IH by assumption. now rewrite <- app_assoc.
+Qed.
+Lemma raw_close_tag_run : forall tag opts attrs acc kids pkids stack,
+  name_okb tag = true ->
+  run_parser (close_tag tag) (PS (MRawText acc) kids (((tag, opts, attrs), pkids) :: stack))
+  = PS (MText (TS [] None)) (pkids ++ [RawEl tag acc]) stack.
+Proof.
+  intros tag opts attrs acc kids pkids stack Ht.
+  unfold close_tag. rewrite run_cons.
+  assert (S1 : forall k st, step (PS (MRawText acc) k st) c_lt = PS (MRawClose acc) k st) by reflexivity.
+  rewrite S1. rewrite run_cons.
+  assert (S2 : forall k st, step (PS (MRawClose acc) k st) c_slash = PS (MRawCloseName acc []) k st) by reflexivity.
+  rewrite S2. rewrite run_app, rawclose_name_run by (now apply name_ok_chars). cbn [app].
+  rewrite run_cons, run_nil. cbn [step]. change (is_name_char c_gt) with false. change (c_gt =? c_gt) with true. cbv iota.
+  now rewrite str_eqb_refl.
 Qed.
 
 Lemma close_tag_run : forall tag opts attrs txt kids pkids stack,
@@ -256,6 +302,7 @@ Section HnodeInd.
   Hypothesis HEl : forall tag opts attrs kids, Forall P kids -> P (El tag opts attrs kids).
   Hypothesis HTxt : forall s, P (Txt s).
   Hypothesis HRaw : forall s, P (Raw s).
+  Hypothesis HRawEl : forall tag body, P (RawEl tag body).
   Fixpoint hnode_ind' (t : hnode) : P t :=
     match t with
     | El tag opts attrs kids =>
@@ -264,6 +311,7 @@ Section HnodeInd.
               match l with [] => Forall_nil P | x :: r => Forall_cons x (hnode_ind' x) (go r) end) kids)
     | Txt s => HTxt s
     | Raw s => HRaw s
+    | RawEl tag body => HRawEl tag body
     end.
 End HnodeInd.
 
@@ -284,10 +332,11 @@ Qed.
 
 Lemma names_ok_reads : forall t, names_ok t -> reads t.
 Proof.
-  induction t as [tag opts attrs kids IH|s|s] using hnode_ind'; intros H txt kids0 stack.
+  induction t as [tag opts attrs kids IH|s|s|tag body] using hnode_ind'; intros H txt kids0 stack.
   - unfold names_ok in H. cbn [names_okb] in H.
     apply andb_prop in H; destruct H as [H Hk]. apply andb_prop in H; destruct H as [H Ha].
-    apply andb_prop in H; destruct H as [Ht Ho].
+    apply andb_prop in H; destruct H as [Ht Ho]. apply andb_prop in Ht; destruct Ht as [Ht Hraw].
+    apply negb_true_iff in Hraw.
     assert (Hr : Forall reads kids).
     { rewrite Forall_forall in IH |- *. intros x Hx. apply IH; [assumption|].
       rewrite forallb_forall in Hk. now apply Hk. }
@@ -297,6 +346,13 @@ Proof.
     cbn [absorb fst snd]. unfold flush. cbn [fst snd]. reflexivity.
   - cbn [render absorb fst snd]. apply text_run.
   - discriminate H.
+  - unfold names_ok in H. cbn [names_okb] in H. apply andb_prop in H; destruct H as [Hraw Hb].
+    assert (Ht : name_okb tag = true).
+    { unfold is_raw_tag in Hraw. apply orb_prop in Hraw. destruct Hraw as [E|E]; apply str_eqb_eq in E; subst; reflexivity. }
+    cbn [render]. rewrite run_app, raw_open_tag_run by assumption.
+    rewrite run_app, raw_body_run by assumption.
+    rewrite raw_close_tag_run by assumption.
+    cbn [absorb fst snd app]. unfold flush. cbn [fst snd]. reflexivity.
 Qed.
 
 Theorem render_parse_list : forall ts, Forall names_ok ts -> parse_html (render_list ts) = Some (normalize ts).
@@ -351,11 +407,13 @@ Section Collect.
 
   Lemma absorbs_all : forall t, absorbs t.
   Proof.
-    induction t as [tag opts attrs kids IH|s|s] using hnode_ind'; intros st.
+    induction t as [tag opts attrs kids IH|s|s|tag body] using hnode_ind'; intros st.
     - cbn [absorb]. unfold cst at 1. cbn [fst]. rewrite flat_map_app, collect_flush.
       cbn [flat_map collect]. rewrite app_nil_r, collect_flush, (absorbs_list kids IH). reflexivity.
     - cbn [absorb collect]. unfold cst. cbn [fst]. now rewrite app_nil_r.
     - cbn [absorb collect]. unfold cst. cbn [fst]. now rewrite app_nil_r.
+    - cbn [absorb]. unfold cst at 1. cbn [fst]. rewrite flat_map_app, collect_flush.
+      cbn [flat_map collect]. now rewrite app_nil_r.
   Qed.
 
   Lemma collect_normalize : forall ts, flat_map (collect g) (normalize ts) = flat_map (collect g) ts.
